@@ -115,7 +115,12 @@ def normalize_bounded(sess: Session):
     from wn._util import normalize_form
     samples = ['Straße', 'STRASSE', 'Maße', 'Masse', 'ÅNGSTRÖM', 'ǅ', 'ﬁn', 'İstanbul', 'ΣΊΣΥΦΟΣ', 'σίσυφος', 'ς',
                'résumé', 'RÉSUMÉ', 'naïve', 'São Paulo', 'ａｂｃ', '①', 'I', 'ı', 'ǆ', 'ß', 'ẞ', 'ŉ', 'multi word Form',
-               'x\u0301', '東京', 'Ünïcödé', '']
+               'x\u0301', '東京', 'Ünïcödé', '',
+               # marks that are not diacritics (combining class 0): Devanagari / Thai vowel signs stay
+               'कुल', 'कल', 'अंत', 'กิน', 'กัน']
+    # ... and every single code point (surrogates aside), alone and after a base letter
+    samples += [chr(c) for c in range(0x110000) if not 0xD800 <= c <= 0xDFFF]
+    samples += ['a' + chr(c) for c in range(0x300, 0x3100)]
     bad = []
     for s_ in samples:
         want = ''.join(c for c in unicodedata.normalize('NFKD', s_.lower()) if not unicodedata.combining(c))
@@ -123,7 +128,7 @@ def normalize_bounded(sess: Session):
         if got != want:
             bad.append({'form': s_, 'got': got, 'documented': want})
     sess.add_bounded('wn._util.normalize_form', f'{len(samples)} forms (case, diacritics, special case foldings, '
-                     'compatibility characters, non-Latin)', len(samples), 'comparison with the documented '
+                     'compatibility characters, non-Latin; every single code point, a + every code point of U+0300..U+30FF)', len(samples), 'comparison with the documented '
                      'definition', not bad)
     if bad:
         sess.violation_direct('wn._util.normalize_form:definition', 'forms that differ by more than case/diacritics are '
